@@ -90,7 +90,7 @@ def node_announcement_addresses(S, D, step):
         st['k'] += 1
         kind, hl = z3.Int('d%d.kind' % k), z3.Int('d%d.hl' % k)
         if k < U:
-            E.assume(z3.And(kind >= 0, kind <= 6, hl >= 0, hl <= 255))
+            E.assume(z3.And(kind >= 0, kind <= 6, hl >= 0, hl <= 255, z3.Implies(kind == 6, hl >= 1)))   # an empty hostname is valid
         else:
             E.assume(z3.And(kind == 5, hl == 0))         # zero padding: unknown descriptor type 0
         sl = speclen(kind, hl)
